@@ -218,6 +218,11 @@ def run(ctx):
         docs.append((i, xml, cfg, feats))
         for f in feats:
             dist['doc:' + f] = dist.get('doc:' + f, 0) + 1
+    import docfuzz
+    frng = rng.fork('repeat-fuzz')
+    for i in range(len(docs), len(docs) + (200 if quick else 4000)):
+        x, c = docfuzz.gen(frng)
+        docs.append((i, x, {k: v for k, v in c.items() if k in ('seed', 'loop_limit', 'var_limit', 'depth_limit')}, ['fuzz']))
     lines = []
     for i, xml, cfg, feats in docs:
         for rep in 'abc':
